@@ -1,14 +1,18 @@
 #!/bin/bash
-# usage: trymut.sh <patch.diff> <prop> [<prop>...]   applies the patch to /repo, runs quick checks, reverts.
+# usage: trymut.sh <patch.diff | patch.diff.rev> <prop> [<prop>...]
+# Applies the patch (".rev": in reverse) to a scratch worktree of /repo's HEAD (never to /repo itself, so that
+# other runs reading /repo are not disturbed), runs the quick checks against it (VERIF_REPO), removes it.
 set -u
 P=$1; shift
-cd /repo || exit 9
-if [ -n "$(git status --porcelain)" ]; then echo "/repo not clean"; exit 9; fi
+S=/tmp/repo-trial
+git -C /repo worktree remove --force $S 2>/dev/null; rm -rf $S
+git -C /repo worktree add -q --detach $S HEAD || exit 9
+trap 'git -C /repo worktree remove --force $S 2>/dev/null; rm -rf $S' EXIT
+cd $S || exit 9
 if [[ "$P" == *.rev ]]; then git apply -R "${P%.rev}"; else git apply "$P" 2>/dev/null || git apply --3way "$P"; fi || { echo "patch does not apply"; exit 9; }
-trap 'cd /repo && git checkout -q -- . && git clean -fdq' EXIT
 cd /verif
 for p in "$@"; do
   echo "=== $p with $(basename $(dirname $P))/$(basename $P)"
-  VERIF_EVID_DIR=/tmp/mut-evid python3 check.py $p --tier quick 2>/dev/null | grep -E "^(VIOLATION|OK|INCONCLUSIVE|HARNESS|  key=)" | cut -c1-260 | head -12
+  VERIF_REPO=$S VERIF_EVID_DIR=/tmp/mut-evid python3 check.py $p --tier quick 2>/dev/null | grep -E "^(VIOLATION|OK|INCONCLUSIVE|HARNESS|  key=)" | cut -c1-260 | head -12
   echo "rc=${PIPESTATUS[0]}"
 done
